@@ -1,33 +1,119 @@
 (* C08 -- virtual_memory() and swap_memory() follow the documented formulas.
    Statements only; proofs live in C08/Proofs*.v.  Model: C08/Model.v
    (transcription of psutil/_pslinux.py: calculate_avail_vmem, virtual_memory,
-   swap_memory and _common.usage_percent), specification: C08/Spec.v (kernel
-   printers k_meminfo / k_zoneinfo / k_vmstat, demanded answers spec_vm / spec_swap).
-   A [kernel] is: /proc/meminfo as ANY list of kernel-formatted lines with distinct
+   swap_memory, _common.usage_percent and the _TOTAL_PHYMEM front end of
+   psutil/__init__.py), specification: C08/Spec.v (kernel printers k_meminfo /
+   k_zoneinfo / k_vmstat, demanded answers spec_vm / spec_swap / sp_memory_percent).
+   A [kernel] is: /proc/meminfo as ANY list of "name number [rest]" lines with distinct
    names (so every subset and order of the optional counters, every magnitude, zero
-   totals), /proc/zoneinfo and /proc/vmstat as any list of lines or absent, the page
-   size, the sysinfo(2) swap figures.  Percentages are in tenths. *)
-From PV Require Import C08.Spec C08.ProofsRound C08.ProofsVM C08.ProofsSwap.
+   totals) interleaved with lines that are not of that form (MJunk: the Linux 2.4
+   header); /proc/zoneinfo as any list of lines (low-watermark lines with any blanks,
+   any number of zones) or absent; /proc/vmstat as any list of "name value [rest]" lines
+   (names may repeat) and other lines, or absent; the page size; the sysinfo(2) swap
+   figures.  Percentages are in tenths.
+   [no_junk]: every meminfo line is "name number ..." (true of every kernel since 2.5).
+   [float_exact]: the double-precision evaluation of the estimate is exact (page size a
+   multiple of 512 and free+watermark+pagecache+slab < 2^61 bytes; vacuous when the
+   estimate's watermark formula is not evaluated). *)
+From PV Require Import C08.Spec C08.ProofsRound C08.ProofsVM C08.ProofsSwap C08.ProofsVM2.
 
-(* virtual_memory(): for every kernel record that has MemTotal and MemFree the call succeeds and
-   returns exactly the demanded record -- total, free, buffers, cached (+SReclaimable), shared
-   (Shmem, else MemShared), active, inactive (else the three 2.4 lists), slab = kernel kB x 1024,
-   0 for what is absent; used = total-free-cached-buffers, total-free when negative;
-   available = MemAvailable, or when absent/zero the documented estimate (watermark formula, or
-   free+cached when one of its inputs is absent), then 0 when negative, free when above total;
-   percent = (total-available)/total*100 rounded to a tenth (0 when total = 0); the warning names
-   exactly the metrics set to 0 (slab excepted) and "available" when it was forced up to 0. *)
+(* ------------------------------------------------------------------ virtual_memory() *)
+(* for every kernel record that has MemTotal and MemFree the call succeeds and returns exactly
+   the demanded record -- total, free, buffers, cached (+SReclaimable), shared (Shmem, else
+   MemShared), active, inactive (else the three 2.4 lists), slab = kernel kB x 1024, 0 for what
+   is absent; used = total-free-cached-buffers, total-free when negative; available =
+   MemAvailable, or when absent/zero the documented estimate (watermark formula over ALL zones,
+   or free+cached when an input or the file is absent), then 0 when negative, free when above
+   total; percent = (total-available)/total*100 rounded half-even to a tenth (0 when total = 0);
+   the warning names exactly the metrics set to 0 (slab excepted) and "available" when it was
+   forced up to 0. *)
 Theorem C08_vm_exact : forall k,
-  wf_kernel k = true -> has_total_free k = true ->
+  wf_kernel k = true -> has_total_free k = true -> no_junk (k_mem k) = true -> float_exact k = true ->
   virtual_memory (k_pagesize k) (k_meminfo (k_mem k)) (option_map k_zoneinfo (k_zone k))
   = Val (spec_vm k).
 Proof. exact vm_exact. Qed.
 Print Assumptions C08_vm_exact.
 
+(* known finding: a meminfo line that is not "name number ..." makes both calls fail -- every file
+   containing one; the witness is the /proc/meminfo of Linux 2.4 (legacy three-line header), for
+   which the parser of notes/fixes/C08-meminfo-legacy-header.diff returns the demanded record *)
+Theorem C08_meminfo_junk_raises : forall k ms1 b ms2 (z : option bytes),
+  wf_kernel k = true -> k_mem k = ms1 ++ MJunk b :: ms2 -> no_junk ms1 = true ->
+  (virtual_memory (k_pagesize k) (k_meminfo (k_mem k)) z = Exc IndexError \/
+   virtual_memory (k_pagesize k) (k_meminfo (k_mem k)) z = Exc ValueError) /\
+  (forall si v, swap_memory (k_pagesize k) (k_meminfo (k_mem k)) si v = Exc IndexError \/
+                swap_memory (k_pagesize k) (k_meminfo (k_mem k)) si v = Exc ValueError).
+Proof. exact vm_junk_raises. Qed.
+Print Assumptions C08_meminfo_junk_raises.
+
+Theorem C08_vm_legacy_header_refuted :
+  exists k, wf_kernel k = true /\ has_total_free k = true /\ float_exact k = true /\
+    virtual_memory (k_pagesize k) (k_meminfo (k_mem k)) (option_map k_zoneinfo (k_zone k)) = Exc ValueError /\
+    swap_memory (k_pagesize k) (k_meminfo (k_mem k)) (k_sysinfo k) (option_map k_vmstat (k_vm k)) = Exc ValueError /\
+    virtual_memory_gen true (k_pagesize k) (k_meminfo (k_mem k)) (option_map k_zoneinfo (k_zone k)) = Val (spec_vm k) /\
+    v_shared (spec_vm k) = 0 /\ v_inactive (spec_vm k) = 152000 * 1024 /\ v_missing (spec_vm k) = [].
+Proof. exact vm_legacy_header_refuted. Qed.
+Print Assumptions C08_vm_legacy_header_refuted.
+
+(* the repaired (lenient) parser meets the specification at full strength: no [no_junk] hypothesis *)
+Theorem C08_vm_exact_lenient : forall k,
+  wf_kernel k = true -> has_total_free k = true -> float_exact k = true ->
+  virtual_memory_gen true (k_pagesize k) (k_meminfo (k_mem k)) (option_map k_zoneinfo (k_zone k))
+  = Val (spec_vm k).
+Proof. exact vm_exact_lenient. Qed.
+Print Assumptions C08_vm_exact_lenient.
+
+(* the estimate and /proc/zoneinfo, all contents: (a) when the file is not consulted (MemAvailable
+   present and non-zero, or an input of the estimate missing) ANY content -- absent, unparsable,
+   arbitrary bytes -- gives the demanded record; (b) when it is consulted, arbitrary bytes either
+   yield a record or raise IndexError ("low" without a number) / ValueError (not a number); the
+   kernel-formatted files are covered by C08_vm_exact *)
+Theorem C08_vm_zoneinfo_unread : forall len k (z : option bytes),
+  wf_kernel k = true -> has_total_free k = true -> (len = true \/ no_junk (k_mem k) = true) ->
+  zone_read k = false ->
+  virtual_memory_gen len (k_pagesize k) (k_meminfo (k_mem k)) z = Val (spec_vm k).
+Proof. exact vm_zoneinfo_unread. Qed.
+Print Assumptions C08_vm_zoneinfo_unread.
+
+Theorem C08_vm_zoneinfo_raw_outcomes : forall len k (z : bytes),
+  wf_kernel k = true -> has_total_free k = true -> (len = true \/ no_junk (k_mem k) = true) ->
+  (exists r, virtual_memory_gen len (k_pagesize k) (k_meminfo (k_mem k)) (Some z) = Val r) \/
+  virtual_memory_gen len (k_pagesize k) (k_meminfo (k_mem k)) (Some z) = Exc IndexError \/
+  virtual_memory_gen len (k_pagesize k) (k_meminfo (k_mem k)) (Some z) = Exc ValueError.
+Proof. exact vm_zoneinfo_raw_outcomes. Qed.
+Print Assumptions C08_vm_zoneinfo_raw_outcomes.
+
+(* the float path: for EVERY rounding operator that leaves multiples of 1024 (half units) below
+   2^63 alone, the double-precision evaluation int(free - wl + (pc - min(pc/2, wl)) + (sr -
+   min(sr/2.0, wl))) equals the exact formula when free, pagecache, slab are multiples of 1024,
+   the watermark a multiple of 512 and their sum is below 2^61; IEEE binary64 rounding (rnd53)
+   is such an operator; beyond the bound the results differ (witness) *)
+Theorem C08_float_path_exact : forall (rnd : Z -> Z),
+  (forall x, x mod 1024 = 0 -> - 2 ^ 63 < x < 2 ^ 63 -> rnd x = x) ->
+  forall F W P S, 0 <= F -> 0 <= W -> 0 <= P -> 0 <= S ->
+  F * 1024 + W * 512 + P * 1024 + S * 1024 < 2 ^ 61 ->
+  let free := F * 1024 in let wl := W * 512 in let pc := P * 1024 in let sr := S * 1024 in
+  py_trunc (py_add rnd (py_add rnd (PI (free - wl)) (py_sub rnd (PI pc) (py_min (PF (rnd pc)) (PI wl))))
+                   (py_sub rnd (PI sr) (py_min (PF (rnd (2 * sr) / 2)) (PI wl))))
+  = (free - wl) + (pc - Z.min (pc / 2) wl) + (sr - Z.min (sr / 2) wl).
+Proof. exact fl_path_exact. Qed.
+Print Assumptions C08_float_path_exact.
+
+Theorem C08_rnd53_exact : forall x, x mod 1024 = 0 -> - 2 ^ 63 < x < 2 ^ 63 -> rnd53 x = x.
+Proof. exact C08.Lib.rnd53_exact. Qed.
+Print Assumptions C08_rnd53_exact.
+
+Theorem C08_vm_float_bound_needed :
+  exists k r, wf_kernel k = true /\ has_total_free k = true /\ no_junk (k_mem k) = true /\ float_exact k = false /\
+    virtual_memory (k_pagesize k) (k_meminfo (k_mem k)) (option_map k_zoneinfo (k_zone k)) = Val r /\
+    v_available r = 2 ^ 63 /\ sp_available k = 2 ^ 63 + 2048.
+Proof. exact vm_float_bound_needed. Qed.
+Print Assumptions C08_vm_float_bound_needed.
+
 (* whichever optional counters are missing: the metric is 0 and is named in the warning (slab is
    0 silently); SReclaimable missing leaves cached = page cache *)
 Theorem C08_vm_missing_fields : forall k r,
-  wf_kernel k = true -> has_total_free k = true ->
+  wf_kernel k = true -> has_total_free k = true -> no_junk (k_mem k) = true -> float_exact k = true ->
   virtual_memory (k_pagesize k) (k_meminfo (k_mem k)) (option_map k_zoneinfo (k_zone k)) = Val r ->
   (kbytes (k_mem k) "Buffers:" = None -> v_buffers r = 0 /\ In (bs "buffers") (v_missing r)) /\
   (kbytes (k_mem k) "Cached:" = None -> v_cached r = 0 /\ In (bs "cached") (v_missing r)) /\
@@ -45,7 +131,7 @@ Print Assumptions C08_vm_missing_fields.
 
 (* ... and the warning names nothing but metrics that are reported as 0 *)
 Theorem C08_vm_warning_sound : forall k r,
-  wf_kernel k = true -> has_total_free k = true ->
+  wf_kernel k = true -> has_total_free k = true -> no_junk (k_mem k) = true -> float_exact k = true ->
   virtual_memory (k_pagesize k) (k_meminfo (k_mem k)) (option_map k_zoneinfo (k_zone k)) = Val r ->
   forall n, In n (v_missing r) ->
     (n = bs "buffers" /\ v_buffers r = 0) \/ (n = bs "cached" /\ v_cached r = 0) \/
@@ -62,9 +148,7 @@ Theorem C08_vm_range : forall k,
 Proof. exact vm_range. Qed.
 Print Assumptions C08_vm_range.
 
-(* the hypothesis free <= total is needed: MemFree > MemTotal together with MemAvailable > MemTotal
-   yields available = free > total and a negative percent (the property text makes the same
-   reservation for percent; recorded as an observation, see notes/design/C08.md) *)
+(* the hypothesis free <= total is needed (observation, see notes/design/C08.md) *)
 Theorem C08_vm_range_needs_free_le_total :
   exists k, wf_kernel k = true /\ has_total_free k = true /\ sp_total k < sp_free k /\
     exists r, virtual_memory (k_pagesize k) (k_meminfo (k_mem k)) (option_map k_zoneinfo (k_zone k)) = Val r /\
@@ -72,8 +156,23 @@ Theorem C08_vm_range_needs_free_le_total :
 Proof. exact vm_range_needs_free_le_total. Qed.
 Print Assumptions C08_vm_range_needs_free_le_total.
 
-(* "rounded": the rounding function used by model and specification returns the nearest integer,
-   ties to even; and that relation has exactly one solution *)
+(* ------------------------------------------------------------------ percent *)
+(* the reported percent (tenths) is the round-half-even of the exact ratio: it is a nearest
+   integer to (total-available)*1000/total, the even one on a tie -- and there is exactly one such *)
+Theorem C08_vm_percent_half_even : forall k, wf_kernel k = true -> 0 < sp_total k ->
+  2 * Z.abs (sp_percent10 k * sp_total k - (sp_total k - sp_available k) * 1000) <= sp_total k /\
+  (2 * Z.abs (sp_percent10 k * sp_total k - (sp_total k - sp_available k) * 1000) = sp_total k ->
+   Z.even (sp_percent10 k) = true).
+Proof. exact vm_percent_half_even. Qed.
+Print Assumptions C08_vm_percent_half_even.
+
+Theorem C08_swap_percent_half_even : forall k, 0 < sw_total k ->
+  2 * Z.abs (sw_percent10 k * sw_total k - (sw_total k - sw_free k) * 1000) <= sw_total k /\
+  (2 * Z.abs (sw_percent10 k * sw_total k - (sw_total k - sw_free k) * 1000) = sw_total k ->
+   Z.even (sw_percent10 k) = true).
+Proof. exact swap_percent_half_even. Qed.
+Print Assumptions C08_swap_percent_half_even.
+
 Theorem C08_round1_nearest : forall n d, 0 < d ->
   2 * Z.abs (round_he n d * d - n) <= d /\
   (2 * Z.abs (round_he n d * d - n) = d -> Z.even (round_he n d) = true).
@@ -85,20 +184,37 @@ Theorem C08_round1_unique : forall t1 t2 n d, 0 < d ->
 Proof. exact nearest_even_unique. Qed.
 Print Assumptions C08_round1_unique.
 
-(* swap_memory(): for EVERY kernel record and page size the call succeeds and returns exactly the
-   demanded record -- total/free from SwapTotal/SwapFree (from sysinfo(2) when either is absent),
-   used = total-free, percent; sin/sout = cumulative swapped pages x page size = bytes; both 0 with a
-   warning when vmstat or the swap counters are absent.  (Code as of commit fe3ce75.) *)
+(* ------------------------------------------------------------------ swap_memory() *)
+(* for EVERY kernel record and page size the call succeeds and returns exactly the demanded record:
+   total/free from SwapTotal/SwapFree (sysinfo(2) when either is absent), used = total-free, percent;
+   sin/sout = swapped pages x page size, over ANY vmstat: repeated counter lines (read as a log:
+   the last pswpin/pswpout line before both are known), extra columns, value-less and blank lines;
+   both 0 with a warning when vmstat or a counter is absent.  (Code as of commit fe3ce75.) *)
 Theorem C08_swap_exact : forall k,
-  wf_kernel k = true ->
+  wf_kernel k = true -> no_junk (k_mem k) = true ->
   swap_memory (k_pagesize k) (k_meminfo (k_mem k)) (k_sysinfo k) (option_map k_vmstat (k_vm k))
   = Val (spec_swap k).
 Proof. exact swap_exact. Qed.
 Print Assumptions C08_swap_exact.
 
-(* fixed finding: before fe3ce75 the code multiplied the page counts by the literal 4096
-   (model: multiplier 4096 instead of the page size); on a 64K-page kernel one swapped-in page
-   was reported as 4096 bytes instead of 65536 *)
+Theorem C08_swap_exact_lenient : forall k, wf_kernel k = true ->
+  swap_memory_gen true (k_pagesize k) (k_meminfo (k_mem k)) (k_sysinfo k) (option_map k_vmstat (k_vm k))
+  = Val (spec_swap k).
+Proof. exact swap_exact_lenient. Qed.
+Print Assumptions C08_swap_exact_lenient.
+
+(* with distinct names -- what every kernel prints -- the log reading is the lookup by name:
+   sin/sout are the pswpin/pswpout counters times the page size *)
+Theorem C08_swap_counters_distinct : forall k vs i o,
+  wf_kernel k = true -> no_junk (k_mem k) = true ->
+  k_vm k = Some vs -> nodupb (vnames vs) = true ->
+  vfind (bs "pswpin") vs = Some i -> vfind (bs "pswpout") vs = Some o ->
+  exists r, swap_memory (k_pagesize k) (k_meminfo (k_mem k)) (k_sysinfo k) (option_map k_vmstat (k_vm k)) = Val r /\
+            s_sin r = i * k_pagesize k /\ s_sout r = o * k_pagesize k /\ s_warned r = false.
+Proof. exact swap_counters_distinct. Qed.
+Print Assumptions C08_swap_counters_distinct.
+
+(* fixed finding: before fe3ce75 the code multiplied the page counts by the literal 4096 *)
 Theorem C08_swap_literal_4096_refuted :
   exists k r, wf_kernel k = true /\ k_pagesize k = 65536 /\
     swap_memory 4096 (k_meminfo (k_mem k)) (k_sysinfo k) (option_map k_vmstat (k_vm k)) = Val r /\
@@ -107,20 +223,61 @@ Proof. exact swap_literal_4096_refuted. Qed.
 Print Assumptions C08_swap_literal_4096_refuted.
 
 (* whichever of vmstat / pswpin / pswpout is missing: success, sin = sout = 0 and the warning;
-   total, free, used unaffected.  (With only one counter missing the other is reported 0 too:
-   no kernel prints one without the other -- observation in notes/design/C08.md.) *)
+   total, free, used unaffected *)
 Theorem C08_swap_missing_counters : forall k r,
-  wf_kernel k = true ->
+  wf_kernel k = true -> no_junk (k_mem k) = true ->
   swap_memory (k_pagesize k) (k_meminfo (k_mem k)) (k_sysinfo k) (option_map k_vmstat (k_vm k)) = Val r ->
   (k_vm k = None \/
-   (exists vs, k_vm k = Some vs /\ (vfind (bs "pswpin") vs = None \/ vfind (bs "pswpout") vs = None))) ->
+   (exists vs, k_vm k = Some vs /\ nodupb (vnames vs) = true /\
+               (vfind (bs "pswpin") vs = None \/ vfind (bs "pswpout") vs = None))) ->
   s_sin r = 0 /\ s_sout r = 0 /\ s_warned r = true /\
   s_total r = sw_total k /\ s_free r = sw_free k /\ s_used r = sw_total k - sw_free k.
 Proof. exact swap_missing_counters. Qed.
 Print Assumptions C08_swap_missing_counters.
 
-(* free <= total  ->  0 <= percent <= 100 *)
 Theorem C08_swap_range : forall k,
   0 <= sw_free k <= sw_total k -> 0 <= sw_percent10 k <= 1000.
 Proof. exact swap_range. Qed.
 Print Assumptions C08_swap_range.
+
+(* ------------------------------------------------------------------ _TOTAL_PHYMEM / memory_percent() *)
+(* virtual_memory() stores the total it reports ... *)
+Theorem C08_phymem_set : forall k,
+  wf_kernel k = true -> has_total_free k = true -> no_junk (k_mem k) = true -> float_exact k = true ->
+  forall c, front_vm c (k_pagesize k) (k_meminfo (k_mem k)) (option_map k_zoneinfo (k_zone k))
+            = (Some (sp_total k), Val (spec_vm k)).
+Proof. exact front_vm_sets. Qed.
+Print Assumptions C08_phymem_set.
+
+(* ... Process.memory_percent() = value*100/total (exact ratio) against the cached total; it
+   evaluates virtual_memory() only when nothing or 0 is cached; ValueError when the total is not
+   positive *)
+Theorem C08_memory_percent_spec : forall k,
+  wf_kernel k = true -> has_total_free k = true -> no_junk (k_mem k) = true -> float_exact k = true ->
+  forall c value,
+  memory_percent c value (k_pagesize k) (k_meminfo (k_mem k)) (option_map k_zoneinfo (k_zone k))
+  = sp_memory_percent c value k.
+Proof. exact memory_percent_spec. Qed.
+Print Assumptions C08_memory_percent_spec.
+
+(* a positive cached total is used whatever the files hold at that moment (arbitrary bytes) *)
+Theorem C08_memory_percent_cached : forall t value ps (mi : bytes) (zi : option bytes), 0 < t ->
+  memory_percent (Some t) value ps mi zi = (Some t, Val (value * 100, t)).
+Proof. exact memory_percent_cached. Qed.
+Print Assumptions C08_memory_percent_cached.
+
+(* over any history of calls the module global is the total of the most recent evaluation *)
+Theorem C08_phymem_history : forall h c,
+  forallb pcall_ok h = true -> m_cache c h = s_cache c h.
+Proof. exact phymem_history. Qed.
+Print Assumptions C08_phymem_history.
+
+(* observation: after MemTotal changed the percentage refers to the old total *)
+Theorem C08_memory_percent_stale :
+  exists k1 k2 value c1 r,
+    wf_kernel k1 = true /\ wf_kernel k2 = true /\ sp_total k1 = 1000 * 1024 /\ sp_total k2 = 4000 * 1024 /\
+    front_vm None 4096 (k_meminfo (k_mem k1)) None = (c1, Val (spec_vm k1)) /\
+    memory_percent c1 value 4096 (k_meminfo (k_mem k2)) None = (c1, Val r) /\
+    r = (value * 100, 1000 * 1024) /\ value = 500 * 1024.
+Proof. exact memory_percent_stale. Qed.
+Print Assumptions C08_memory_percent_stale.
